@@ -17,6 +17,8 @@ CHECK = {
         "displacements below ~1.5e-6 x scale are not detected (property allows the tolerance)",
         "no-skipped-boundary is decided at a 16-point subdivision of each segment",
         "geometries with involute surfaces are not judged (oracle does not implement them)",
+        "set_dir directions exactly tangent to the surface the track sits on are not explored (the "
+        "alphabet is tilted off the axes); near-tangent ones are",
         "a re-entrant {0, boundary} answer after a completed crossing may only be followed by "
         "set_dir (FieldPropagator's use); histories outside the documented call order are not "
         "explored",
